@@ -714,6 +714,9 @@ def _corr_slip_one(ctx, rng, ref, caseseed, it0, it, dyadic):
         _cmp(ctx, 'displacement:pbc', "am.displacement (system_1 with other pbc flags, box_reference='initial')",
              am.displacement(s0, s1q, box_reference='initial'), out, exact, dict(info, pbc1=p2),
              decided=_mi(V_, pb_, s1.atoms.pos - s0.atoms.pos, np)[2])
+        o3 = ctx.driver.ask(f'slip {_cell(s0)} {n} {pos} {nlt} {_sel_tokens(sel)}')
+        _cmp(ctx, 'slip_vector:pbc', "slip_vector (system_1 with other pbc flags: both separations under system_0's box and flags)",
+             _guard(lambda: am.defect.slip_vector(s0, s1q, neighbors=nl0)[sel]), o3, exact, dict(info, pbc1=p2), decided=dec_slip)
         o2 = ctx.driver.ask(f'dd {_cell(s0)} {_cell(s1q)} {n} {pos} {nlt} {_sel_tokens(sel)}')
         offs_ = np.concatenate([[0], np.cumsum([len(nl0[i]) for i in range(n)])])
         rows_ = np.concatenate([np.arange(offs_[i], offs_[i + 1]) for i in sel]).astype(int)
@@ -781,8 +784,10 @@ def _corr_slip_one(ctx, rng, ref, caseseed, it0, it, dyadic):
         # (it differs from plane to plane and between the halves: the choice of the two adjoining planes matters)
         sfrac = s0.box.position_cartesian_to_relative(s0.atoms.pos)
         lev = (s0.atoms.pos[:, ax] - s0.atoms.pos[:, ax].min()) / max(1e-9, float(np.ptp(s0.atoms.pos[:, ax])))
-        u = (np.sin(2 * np.pi * sfrac[:, mdir]) * (0.4 + lev) * np.where(sc['side'], 1.0, -0.6))[:, None] \
-            * np.array([0.03, 0.012, -0.02]) * a
+        third = [k_ for k_ in range(3) if k_ not in (ax, mdir)][0]
+        # (it also varies ALONG each atomic column, so that the per-column mean is a real mean)
+        u = (np.sin(2 * np.pi * sfrac[:, mdir]) * (0.4 + lev) * np.where(sc['side'], 1.0, -0.6)
+             * (1.0 + 0.35 * np.cos(2 * np.pi * sfrac[:, third] + 0.7)))[:, None] * np.array([0.03, 0.012, -0.02]) * a
         s2 = _system(s0, s1.atoms.pos + u, pbc=sc['pbc'])
         _corr_disreg(ctx, s0, s2, m, nn, planepos, False, dict(info, m=m, n=nn, planepos=planepos, field=True),
                      canon + ('field',))
@@ -1258,6 +1263,39 @@ def _search_slip_one(ctx, rng, ref, caseseed, it0, it, dyadic):
             if k is not None:
                 fail('disregistry', f'disregistry at coordinate {coord[k]} is {dis[k].tolist()}, the imposed slip '
                      f'(upper - lower half, through the periodic boundaries) is {want.tolist()}', m=m, n=nn, planepos=planepos)
+    if coord is not None and sc['stable'] and it % 2 == 0:
+        # the profile is built from PER-COLUMN MEANS: a perturbation whose mean over every atomic column (same plane,
+        # same coordinate along m) vanishes must leave the disregistry of the rigid slip unchanged
+        third = [k_ for k_ in range(3) if k_ not in (ax, mdir)][0]
+        keys = np.round(np.stack([s0.atoms.pos[:, ax], s0.atoms.pos[:, mdir]], axis=1) / 1e-5).astype(np.int64)
+        _, grp = np.unique(keys, axis=0, return_inverse=True)
+        grp = np.asarray(grp).ravel()
+        pert = np.array([[rng.uniform(-1, 1) for _ in range(3)] for _ in range(n)]) * 0.02 * a
+        cnt = np.bincount(grp)
+        if cnt.max() > 1:
+            for c_ in range(3):
+                pert[:, c_] -= (np.bincount(grp, weights=pert[:, c_]) / cnt)[grp]
+            s2 = _system(s0, s1.atoms.pos + pert, pbc=sc['pbc'])
+            # exact expectation: per column the mean (Fractions) of the displacements actually imposed
+            dexp = s2.atoms.pos - s1.atoms.pos + exp_disp
+            worst = 0.0
+            for g_ in np.unique(grp[adj]):
+                idx_ = np.where(grp == g_)[0]
+                mean_ = [sum(Fraction(float(dexp[i_, c_])) for i_ in idx_) / len(idx_) for c_ in range(3)]
+                ref_ = exp_disp[idx_[0]]
+                worst = max(worst, max(abs(float(mean_[c_]) - ref_[c_]) for c_ in range(3)))
+            ctx.stats.case('oracle:disreg-columns', canon)
+            if worst < 1e-12:
+                try:
+                    c3, d3 = am.defect.disregistry(s0, s2, m=m, n=nn, planepos=planepos)
+                    want = exp_disp[int(np.where(adj & side)[0][0])] - exp_disp[int(np.where(adj & ~side)[0][0])]
+                    k = _bad(d3, np.tile(want, (len(c3), 1)), 1e-9 * L) if d3.shape == (len(c3), 3) else 0
+                    if k is not None:
+                        fail('disregistry:column-mean', f'rigid slip {want.tolist()} plus a perturbation with zero mean over every atomic '
+                             f'column ({int(cnt.max())} atoms per column): disregistry at coordinate {c3[k]} is {d3[k].tolist()}, '
+                             f'the per-column means give {want.tolist()}', m=m, n=nn, planepos=planepos, perturbation=pert.tolist())
+                except Exception as e:   # noqa
+                    fail('disregistry:column-mean', f'disregistry raised {type(e).__name__}: {e}', m=m, n=nn, planepos=planepos)
     # invariance: joint translation -------------------------------------------------------------
     # (entries whose nearest image is not decided by a margin are left out: rounding may pick the other image)
     tolt = 1e-9 * L
@@ -1661,8 +1699,22 @@ def _strain_sequence(ctx, caseseed, it, tie):
             'size': list(size), 'cutoff': cut, 'F': Fs, 'A': As}
     refs = [s0 if k == 0 else _deform(s0, As[k]) for k in range(3)]                  # the reference crystals A_k(s0)
     pvs = [[np.atleast_2d(r.dvect(i, nl0[i])).copy() for i in range(n)] for r in refs]
-    cur = {'F': 0, 'A': None, 'theta': 27.0, 'claim': False}
-    sys1 = _deform(s0, Fs[0])
+    # state 3 of the analysed system: F0 plus a smooth periodic displacement field (G varies, Nye tensor non-zero)
+    sfrac0 = s0.box.position_cartesian_to_relative(s0.atoms.pos)
+    kvec = np.array([rng.choice([0, 1]) for _ in range(3)])
+    if not kvec.any():
+        kvec[rng.randrange(3)] = 1
+    ufield = np.sin(2 * np.pi * (sfrac0 @ kvec + rng.uniform(0, 1)))[:, None] * np.array([rng.uniform(-0.012, 0.012) * a for _ in range(3)])
+    base['field'] = {'k': kvec.tolist()}
+
+    def state(kF):
+        if kF < 3:
+            return _deform(s0, Fs[kF])
+        t = _deform(s0, Fs[0])
+        return _system(t, t.atoms.pos + ufield @ np.array(Fs[0]).T)
+    kF0 = rng.choice([0, 0, 3])
+    cur = {'F': kF0, 'A': None, 'theta': 27.0, 'claim': False}
+    sys1 = state(kF0)
     nl1 = sys1.neighborlist(cutoff=cut * 1.04)
     log = []
 
@@ -1720,8 +1772,21 @@ def _strain_sequence(ctx, caseseed, it, tie):
     ctx.stats.case('sobj:' + ('tie' if tie else 'oracle'), (caseseed, it), sample=base)
     nops = rng.randint(6, 11)
     exps = {}
+    # half of the sequences start with a purposeful motif (an input changed through one entry point after values were
+    # read, then re-solved through another), the rest is random; `plan` entries force (op class, parameter)
+    R_READ, R_SETP, R_BUILD, R_THETA, R_SOLVE, R_CLEAR, R_SYS = 0.2, 0.5, 0.65, 0.73, 0.8, 0.92, 0.97
+    small = rng.choice([1.0, 2.0])
+    motifs = [
+        [(R_READ, None), (R_THETA, small), (R_SOLVE, 27.0), (R_READ, None)],
+        [(R_SOLVE, small), (R_READ, None), (R_SOLVE, 27.0), (R_READ, None)],
+        [(R_READ, None), (R_SETP, None), (R_SOLVE, None), (R_READ, None)],
+        [(R_READ, None), (R_SYS, None), (R_SOLVE, None), (R_READ, None)],
+        [(R_READ, None), (R_BUILD, None), (R_CLEAR, None), (R_READ, None)],
+        [(R_READ, None), (R_THETA, small), (R_SETP, None), (R_SOLVE, rng.choice([25.0, 30.0])), (R_READ, None)],
+    ]
+    plan = list(rng.choice(motifs)) if rng.random() < 0.5 else []
     for step in range(nops):
-        r = rng.random()
+        r, forced = plan.pop(0) if plan else (rng.random(), None)
         with warnings.catch_warnings():
             warnings.simplefilter('ignore')
             if r < 0.45 or step == nops - 1:
@@ -1747,8 +1812,22 @@ def _strain_sequence(ctx, caseseed, it, tie):
                         if out.startswith('err:'):
                             report('sobj:' + attr, f'reading .{attr} returned values, the model refuses ({out})')
                             continue
-                        impl = val ** 2 if attr == 'angularvelocity' else val
-                        d = _maxdiff(impl, _floats(out))
+                        impl = np.asarray(val ** 2 if attr == 'angularvelocity' else val, dtype=float)
+                        model = _floats(out)
+                        # atoms whose matched p-q set (at the time the cached G was solved) is rank deficient or
+                        # badly conditioned are exempt: lstsq then returns a minimum-norm solution the normal
+                        # equations do not describe (small theta_max values produce such sets)
+                        cond = [float(x) for x in _floats(ctx.driver.ask('so cond'))]
+                        good = np.array([c_ >= 1e-4 or c_ < 0 for c_ in cond], dtype=bool) if len(cond) == n else np.ones(n, dtype=bool)
+                        if attr == 'nye':
+                            good = np.array([good[i] and all(good[j] for j in nl1[i]) for i in range(n)], dtype=bool)
+                        ctx.extra['sobj_atoms_exempt_rank'] = ctx.extra.get('sobj_atoms_exempt_rank', 0) + int((~good).sum())
+                        if impl.shape[:1] != (n,) or len(model) % n:
+                            report('sobj:' + attr, f'.{attr} has shape {impl.shape}')
+                            continue
+                        per = len(model) // n
+                        keep = np.repeat(good, per)
+                        d = _maxdiff(impl.reshape(n, -1)[good], [m_ for m_, k_ in zip(model, keep) if k_])
                         if d > 2e-9:
                             report('sobj:' + attr, f'.{attr} differs from the object model by {float(d):.3e}')
                     else:
@@ -1757,12 +1836,25 @@ def _strain_sequence(ctx, caseseed, it, tie):
                                 report('sobj:no-reference', f'.{attr} without p vectors: expected the ValueError of solve_G, got '
                                        f'{val.text if isinstance(val, _Raised) else "values"}')
                             continue
-                        if not cur['claim']:
+                        if not cur['claim'] or cur['theta'] < 20:
+                            # (no expectation: inputs changed without solve_G, or a theta_max so small that a
+                            #  deformed shell is not matched completely)
                             continue
                         if isinstance(val, _Raised):
                             report('sobj:raises', f'reading .{attr} raised {val.text}')
                             continue
                         key = (cur['F'], cur['A'])
+                        if cur['F'] == 3:
+                            # non-homogeneous state: no closed form; a fresh object built from the current inputs instead
+                            fr_ = _guard(lambda: np.array(getattr(am.defect.Strain(
+                                sys1, neighbors=nl1, p_vectors=[np.array(p_, dtype=float) for p_ in st.p_vectors],
+                                theta_max=st.theta_max), attr)))
+                            if isinstance(fr_, _Raised):
+                                report('Strain:raises', f'fresh Strain from the current inputs raised {fr_.text}')
+                            elif fr_.shape != np.shape(val) or np.abs(fr_ - val).max() > 1e-12:
+                                report('sobj:fresh:' + attr, f'.{attr} after the last solve/clear differs from a fresh object built '
+                                       f'from the same current inputs by {np.abs(fr_ - val).max() if fr_.shape == np.shape(val) else "shape"}')
+                            continue
                         if key not in exps:
                             exps[key] = _exact_measures(_fr_mat(Fs[key[0]]), _fr_mat(As[key[1]]))
                         want = exps[key][attr]
@@ -1801,7 +1893,9 @@ def _strain_sequence(ctx, caseseed, it, tie):
                     report('sobj:driver', 'model refused build_p_vectors')
                     return
             elif r < 0.76:
-                th = rng.choice([25.0, 27.0, 29.0, 30, 0, -4.0, 181.0, 400, 26.5])
+                th = rng.choice([25.0, 27.0, 29.0, 30, 0, -4.0, 181.0, 400, 26.5, 1.0, 2.0] + ([4.0, 180] if tie else []))
+                if forced is not None:
+                    th = forced
                 note(f'theta_max = {th}')
                 st.theta_max = th
                 if 0 < th <= 180:
@@ -1810,7 +1904,11 @@ def _strain_sequence(ctx, caseseed, it, tie):
                 if tie:
                     ask(f'so theta {cm.fr(float(th))} {cm.fr(cosd(float(th)))}')
             elif r < 0.9:
-                th = rng.choice([None, None, 25.0, 28.0, 30, 0, 200.0])
+                # (after a small theta_max, re-solving with the usual one must bring everything back)
+                th = rng.choice([None, None, 25.0, 28.0, 30, 0, 200.0] + ([1.0, 2.5, 5.0] if tie else [])
+                                + ([27.0, 27.0, 26.0] if cur['theta'] < 20 else []))
+                if forced is not None:
+                    th = forced
                 note('solve_G()' if th is None else f'solve_G(theta_max={th})')
                 res = _guard(lambda: st.solve_G() if th is None else st.solve_G(theta_max=th))
                 out = ask('so solve 0' if th is None else f'so solve 1 {cm.fr(float(th))} {cm.fr(cosd(float(th)))}')
@@ -1835,9 +1933,9 @@ def _strain_sequence(ctx, caseseed, it, tie):
                     ask('so clear')
             else:
                 # ---- the analysed system changes in place (same System object, same neighbour list) --------
-                kF = rng.randrange(3)
-                note(f'system changed in place to F{kF}')
-                new = _deform(s0, Fs[kF])
+                kF = rng.randrange(4)
+                note(f'system changed in place to F{kF}' + (' (F0 + smooth field)' if kF == 3 else ''))
+                new = state(kF)
                 # (same topology: keep every atom in the image the neighbour list was built for is not needed,
                 #  dvect takes the nearest image)
                 sys1.box_set(vects=new.box.vects, origin=new.box.origin, scale=False)
